@@ -34,7 +34,7 @@ claim("C09", "For each of 13 previous activities x 18 instructions with symbolic
       "activity with its side effects and an exact frame (nothing but vehicle and old/new targets changes) or a state structurally equal to the pre-state (deep comparison, instance ids included); "
       "plus two-instruction independence and generator/driver precedence harnesses.", _NOTE, "4/C09")
 claim("C10", "One-step induction: after any instruction / default transition the activity's target grants access to the vehicle, over the 5x5 grid of vehicle x target memberships "
-      "(public, f1, f2, both, foreign private; the second station carries a different membership); direct entry into a pooling dispatch over two requests (5x5x5 grid); built-in generators checked on emitted pairs.", _NOTE, "4/C10")
+      "(public, f1, f2, both, foreign private; the second station carries a different membership); direct entry into a pooling dispatch over two requests (5x5x5 grid); the built-in Dispatcher (emitted pairs, and a whole step) and the built-in ChargingFleetManager (two vehicles incl. on one cell, two stations, both search types) never cross fleets.", _NOTE, "4/C10")
 claim("C16", "Persistence as a frame condition of every transition harness: a deep snapshot (taken outside tracing, leaves by reference) of the retained pre-state object equals its snapshot after the call, "
       "and the same transition applied twice from it gives equal results modulo instance ids; plus a saved payload stepped twice (autonomous and human driver, random draws solver-chosen) and two consecutive index operations with the state between them kept.", _NOTE, "4/C16")
 claim("C17", "One-step induction: 'a waiting request that records a modelled vehicle => that vehicle is in DispatchTrip to it' is re-established by every instruction and every vehicle update "
